@@ -251,6 +251,12 @@ def _budget_param(lib, comp):
                     a = trace(b, s["rv"]["a"])
                     if a.origin and a.origin[0] == "arg" and s["rv"]["b"].get("k") == "const":
                         bp[fid] = a.origin[1]
+    if not bp:
+        # no test at a function's entry: a test further in (before the recursive call it guards), or a checked
+        # subtraction of the budget
+        for t_ in _raw_budget_tests(lib, comp):
+            if t_["ok"] and t_["fid"] not in bp:
+                bp[t_["fid"]] = t_["param"]
     changed = True
     while changed:
         changed = False
@@ -333,7 +339,92 @@ def _delta(body, op, param):
             c = const_value(tr.origin[2]["args"][1])
             if a.origin and a.origin[0] == "arg" and a.origin[1] == param and isinstance(c, int) and c >= 0:
                 return c
+        # `let Some(rest) = budget.checked_sub(c) else { return Err(..) }` / `.checked_sub(c).ok_or(..)?`
+        if f.get("name") == "checked_sub" and len(tr.origin[2]["args"]) == 2 and any(s[0] == "downcast" and s[1] in ("Some", "Ok", "Continue") for s in tr.steps):
+            a = trace(body, tr.origin[2]["args"][0])
+            c = const_value(tr.origin[2]["args"][1])
+            if a.origin and a.origin[0] == "arg" and a.origin[1] == param and isinstance(c, int) and c >= 0:
+                return c
     return None
+
+
+_CHECKED_VIEWS = ("std::option::Option::<T>::ok_or", "std::option::Option::<T>::ok_or_else", "std::ops::Try::branch")
+
+
+def _is_checked_delta(body, op, param):
+    """The operand is `param.checked_sub(c)`'s payload: a subtraction that cannot underflow by construction."""
+    tr = trace(body, op, passthrough_extra=_CHECKED_VIEWS)
+    return bool(tr.origin and tr.origin[0] == "call" and (fn_of(tr.origin[2]) or {}).get("name") in ("checked_sub", "saturating_sub"))
+
+
+def _raw_budget_tests(lib, comp):
+    """Tests of a usize parameter against a small constant, anywhere in the functions of a recursive component, whose
+    'exhausted' side returns Err without recursing: [{fid, bb, param, thr, op, c, live: (src, dst), ok}] — the budget is
+    known to exceed `thr` on the live edge. Forms: `p == c` / `p <= c` / `p < c` (and their negations), and
+    `p.checked_sub(c)` with the None side returning."""
+    out = []
+    for fid in comp:
+        b = lib.by_id[fid]
+
+        def exhausted_ok(dst):
+            r = b.reachable_from(dst)
+            rec = [x for x in r if b.blocks[x]["term"]["k"] == "call" and ((fn_of(b.blocks[x]["term"]) or {}).get("def") in comp or (fn_of(b.blocks[x]["term"]) or {}).get("resolved") in comp)]
+            errs = any(s2["k"] == "assign" and s2["p"]["l"] == 0 and s2["rv"]["k"] == "aggregate" and s2["rv"].get("variant") == "Err" for x in r for s2 in b.blocks[x]["stmts"])
+            return not rec and errs
+
+        for bi in sorted(b.reach()):
+            blk = b.blocks[bi]
+            sw = blk["term"]
+            if sw["k"] != "switch" or not is_place(sw["discr"]) or sw["discr"]["p"]["pr"]:
+                continue
+            dl = sw["discr"]["p"]["l"]
+            zero = [x for v, x in sw["targets"] if v == 0]
+            for st in blk["stmts"]:
+                if not (st["k"] == "assign" and not st["p"]["pr"] and st["p"]["l"] == dl):
+                    continue
+                rv = st["rv"]
+                if rv["k"] == "binop" and rv["op"] in ("Eq", "Ne", "Lt", "Le", "Gt", "Ge") and zero:
+                    a = trace(b, rv["a"])
+                    c = const_value(rv["b"])
+                    if not (a.origin and a.origin[0] == "arg" and all(x[0] == "use" for x in a.steps) and isinstance(c, int) and not isinstance(c, bool) and b.local_ty(a.origin[1]) == "usize"):
+                        continue
+                    t_edge, f_edge = (bi, sw["otherwise"]), (bi, zero[0])
+                    # which side is "budget small"
+                    if rv["op"] in ("Eq", "Le", "Lt"):
+                        exh, live = t_edge, f_edge
+                        thr = {"Eq": c, "Le": c, "Lt": c - 1}[rv["op"]]
+                        op = rv["op"]
+                    else:
+                        exh, live = f_edge, t_edge
+                        thr = {"Ne": c, "Gt": c, "Ge": c - 1}[rv["op"]]
+                        op = {"Ne": "Eq", "Gt": "Le", "Ge": "Lt"}[rv["op"]]
+                    out.append({"fid": fid, "bb": bi, "param": a.origin[1], "thr": thr, "op": op, "c": c, "live": live, "ok": exhausted_ok(exh[1])})
+                elif rv["k"] == "discr" and not rv["p"]["pr"]:
+                    # discriminant of `p.checked_sub(c)`: Some = enough budget left
+                    ds = b.whole_defs(rv["p"]["l"])
+                    if len(ds) == 1 and ds[0][2] == "call" and (fn_of(ds[0][3]) or {}).get("name") == "checked_sub" and len(ds[0][3]["args"]) == 2:
+                        a = trace(b, ds[0][3]["args"][0])
+                        c = const_value(ds[0][3]["args"][1])
+                        if a.origin and a.origin[0] == "arg" and all(x[0] == "use" for x in a.steps) and isinstance(c, int) and c >= 1 and b.local_ty(a.origin[1]) == "usize":
+                            some = [x for v, x in sw["targets"] if v == 1]
+                            none = zero[0] if zero else (sw["otherwise"] if some else None)
+                            some_t = some[0] if some else sw["otherwise"]
+                            if none is not None and some_t != none:
+                                out.append({"fid": fid, "bb": bi, "param": a.origin[1], "thr": c - 1, "op": "Lt", "c": c, "live": (bi, some_t), "ok": exhausted_ok(none)})
+    return out
+
+
+def _site_block(n_):
+    """Block of the root function in which a (possibly closure-nested) call site of `_family_calls` sits."""
+    return n_[1] if not n_[0] else n_[0][0][1]
+
+
+_underflow_seen = {}
+
+
+def _nth_site(d, k):
+    d[k] = d.get(k, -1) + 1
+    return d[k]
 
 
 @rule("R18.3", 4, "size calculator: budget strictly decreases around every recursive cycle, is tested before recursing, and never rejects above rmp's level", ["C18", "C04"])
@@ -348,25 +439,47 @@ def r18_3(ctx):
         ctx.ob(f"{name}:budget-parameter", ok_bp, comp[0], f"budget parameter per function: { {k.rsplit('::', 1)[-1]: v for k, v in bp.items()} }" if ok_bp else "recursive component has no budget parameter threaded through all its functions (unbounded recursion)")
         if not ok_bp:
             continue
-        # the test
-        tests = []
+        # the tests: a test whose live edge dominates every recursive call of its function is that function's entry
+        # test; a test that guards single call sites (`if budget <= 1 { return Err } .. recurse(budget - 1)`) is turned
+        # into an entry test of the callee (budget' <= thr - delta) when every call into that callee is guarded alike
+        raw = [t_ for t_ in _raw_budget_tests(lib, comp) if t_["param"] == bp[t_["fid"]]]
+        sites = {}
         for fid in comp:
-            b = lib.by_id[fid]
-            sw = b.blocks[0]["term"]
-            if sw["k"] != "switch":
+            sup_, fcalls = _family_calls(lib, fid)
+            for n_, b_, t_ in fcalls:
+                f_ = fn_of(t_) or {}
+                r_ = f_.get("resolved") if f_.get("resolved") in comp else f_.get("def")
+                if r_ in comp and n_ is not None:
+                    sites.setdefault(fid, []).append((n_, b_, t_, r_))
+        tests = []
+        site_guard = {}
+        for t_ in raw:
+            fid = t_["fid"]
+            fb = lib.by_id[fid]
+            without = fb.reachable_from(0, removed_edges=[t_["live"]])
+            guarded = [x for x in sites.get(fid, []) if _site_block(x[0]) not in without]
+            if guarded and len(guarded) == len(sites.get(fid, [])):
+                tests.append((fid, t_["op"], t_["c"], t_["thr"], t_["ok"]))
+            if t_["ok"]:
+                for x in guarded:
+                    site_guard[(fid, id(x[2]))] = max(site_guard.get((fid, id(x[2])), -1), t_["thr"])
+        have_entry = {t[0] for t in tests}
+        for g in comp:
+            if g in have_entry:
                 continue
-            for s in b.blocks[0]["stmts"]:
-                if s["k"] == "assign" and s["rv"]["k"] == "binop" and s["rv"]["op"] in ("Eq", "Lt", "Le"):
-                    a = trace(b, s["rv"]["a"])
-                    c = const_value(s["rv"]["b"])
-                    if a.origin and a.origin[0] == "arg" and a.origin[1] == bp[fid] and isinstance(c, int):
-                        # true edge must return Err without recursing
-                        te = sw["otherwise"]
-                        r = b.reachable_from(te)
-                        rec = [x for x in r if b.blocks[x]["term"]["k"] == "call" and ((fn_of(b.blocks[x]["term"]) or {}).get("def") in comp or (fn_of(b.blocks[x]["term"]) or {}).get("resolved") in comp)]
-                        errs = any(s2["k"] == "assign" and s2["p"]["l"] == 0 and s2["rv"]["k"] == "aggregate" and s2["rv"].get("variant") == "Err" for x in r for s2 in b.blocks[x]["stmts"])
-                        thr = {"Eq": c, "Lt": c - 1, "Le": c}[s["rv"]["op"]]
-                        tests.append((fid, s["rv"]["op"], c, thr, not rec and errs))
+            inc = [(fid, x) for fid, xs in sites.items() for x in xs if x[3] == g]
+            vals = set()
+            for fid, x in inc:
+                thr_s = site_guard.get((fid, id(x[2])))
+                sup_, _ = _family_calls(lib, fid)
+                d_ = _delta_s(sup_, x[0], x[1], x[2]["args"][bp[g] - 1], bp[fid])
+                if thr_s is None or d_ is None:
+                    vals = None
+                    break
+                vals.add(thr_s - d_)
+            if vals and len(vals) == 1 and min(vals) >= 0:
+                thr_v = vals.pop()
+                tests.append((g, "Le", thr_v, thr_v, True))
         ok_t = len(tests) >= 1 and all(t[4] for t in tests)
         ctx.ob(f"{name}:budget-tested-at-entry", ok_t, comp[0], f"tests: {[(t[0].rsplit('::', 1)[-1], t[1], t[2]) for t in tests]}" if ok_t else "no function of the recursive component refuses an exhausted budget before recursing")
         if not ok_t:
@@ -391,6 +504,42 @@ def r18_3(ctx):
                "every recursive call passes (own budget - constant)" if not bad_edges else f"a recursive call passes a budget that is not derived from the caller's: {[(a.rsplit('::', 1)[-1], b_.rsplit('::', 1)[-1]) for a, b_, _ in bad_edges]} (reset / unrelated value)")
         if bad_edges:
             continue
+        # a plain `budget - d` must not underflow: the least budget a function can hold (from its own entry test, or
+        # from what every caller guarantees) covers the constant it subtracts at each recursive call
+        entry_lb = {}
+        for t in tests:
+            if t[4] and (t[1] in ("Le", "Lt") or (t[1] == "Eq" and t[2] == 0)):
+                entry_lb[t[0]] = max(entry_lb.get(t[0], 0), t[3] + 1)
+        lb = {fid: entry_lb.get(fid, 0) for fid in comp}
+        for _ in range(8):
+            changed = False
+            for g in comp:
+                inc = [(fid, x) for fid, xs in sites.items() for x in xs if x[3] == g]
+                if not inc:
+                    continue
+                vals = []
+                for fid, x in inc:
+                    sup_, _ = _family_calls(lib, fid)
+                    d_ = _delta_s(sup_, x[0], x[1], x[2]["args"][bp[g] - 1], bp[fid]) or 0
+                    vals.append(max(lb[fid], site_guard.get((fid, id(x[2])), -1) + 1) - d_)
+                new_lb = max(entry_lb.get(g, 0), min(vals), 0)
+                # (calls from outside the component pass the full initial budget, far above these small bounds)
+                if new_lb > lb[g]:
+                    lb[g] = new_lb
+                    changed = True
+            if not changed:
+                break
+        for fid, xs in sorted(sites.items()):
+            for x in xs:
+                sup_, _ = _family_calls(lib, fid)
+                d_ = _delta_s(sup_, x[0], x[1], x[2]["args"][bp[x[3]] - 1], bp[fid])
+                if not d_ or _is_checked_delta(x[1], x[2]["args"][bp[x[3]] - 1], bp[fid]):
+                    continue
+                have = max(lb[fid], site_guard.get((fid, id(x[2])), -1) + 1)
+                ctx.ob(f"{name}:no-underflow:{fid.rsplit('::', 1)[-1]}->{x[3].rsplit('::', 1)[-1]}:{_nth_site(_underflow_seen, (ctx.config, fid, x[3]))}", have >= d_, site(x[1], x[0][1]) if not x[0][0] else comp[0],
+                       f"budget is at least {have} here, {d_} is subtracted" if have >= d_ else
+                       f"`budget - {d_}` where the budget is only known to be >= {have}: at the depth limit the subtraction underflows (panic in debug builds; in release builds the budget wraps to a huge value and the recursion is unbounded)")
+        _underflow_seen.clear()
         # enumerate simple cycles through a tested function
         cyc = []
 
@@ -414,6 +563,7 @@ def r18_3(ctx):
         dmin = min(mn for _, mn, _ in cyc)
         # initial budget from the external call
         k0 = None
+        ext = set()
         for b in lib.bodies:
             if _root_of(lib, b).id in comp:
                 continue
@@ -421,9 +571,13 @@ def r18_3(ctx):
                 f = fn_of(t) or {}
                 r = f.get("resolved") if f.get("resolved") in lib.by_id else f.get("def")
                 if r in comp:
+                    ext.add(r)
                     _, v = _named_const(b, t["args"][bp[r] - 1])
                     k0 = v if k0 is None else min(k0, v) if isinstance(v, int) else k0
-        op, c, thr = tests[0][1], tests[0][2], tests[0][3]
+        # levels are counted from the function the outside world calls with the full budget: the (real or derived)
+        # entry test of that function is the one whose threshold says at which nesting depth a value is refused
+        at_entry = sorted([t for t in tests if t[0] in ext], key=lambda t: -t[3])
+        op, c, thr = (at_entry[0] if at_entry else tests[0])[1:4]
         if not isinstance(k0, int):
             ctx.ob(f"{name}:initial-budget-constant", False, comp[0], "the initial budget is not a compile-time constant")
             continue
